@@ -26,6 +26,103 @@ pub const VERIF_ROOT: &str = "/verif";
 
 thread_local! {
     static LAST_PANIC: RefCell<Option<String>> = const { RefCell::new(None) };
+    static WANT_BACKTRACE: std::cell::Cell<bool> = const { std::cell::Cell::new(false) };
+    static LAST_FUNC: RefCell<Option<String>> = const { RefCell::new(None) };
+}
+
+/// innermost `calamine::` function of a captured backtrace (stable under line shifts)
+pub fn innermost_calamine_frame(bt: &str) -> Option<String> {
+    // frames look like
+    //    4: decompress_stream
+    //              at /repo/src/cfb.rs:367:9
+    // (with line-tables-only debug info the names carry no module path, so the file is part of the
+    // signature; the line is not)
+    let mut name: Option<String> = None;
+    for line in bt.lines() {
+        let t = line.trim_start();
+        if let Some(rest) = t.strip_prefix("at ") {
+            if let (Some(n), Some(pos)) = (&name, rest.find("/repo/src/")) {
+                let file = rest[pos + "/repo/".len()..].split(':').next().unwrap_or("");
+                if !file.ends_with("verif_hooks.rs") {
+                    return Some(format!("{n}@{file}"));
+                }
+            }
+            continue;
+        }
+        if let Some((n, sym)) = t.split_once(": ") {
+            if n.chars().all(|c| c.is_ascii_digit()) {
+                // drop generic arguments
+                let mut out = String::new();
+                let mut depth = 0i32;
+                for c in sym.trim().chars() {
+                    match c {
+                        '<' => depth += 1,
+                        '>' => depth -= 1,
+                        c if depth <= 0 => out.push(c),
+                        _ => {}
+                    }
+                }
+                name = Some(out.rsplit("::").next().unwrap_or("").to_string()).filter(|s| !s.is_empty()).or(Some(out));
+            }
+        }
+    }
+    None
+}
+
+/// "src/x.rs: <trimmed text of the line>" for a location inside /repo/src
+fn source_line(loc: &str) -> Option<String> {
+    let mut it = loc.rsplitn(2, ':');
+    let line: usize = it.next()?.parse().ok()?;
+    let file = it.next()?;
+    let pos = file.find("/repo/src/")?;
+    let text = std::fs::read_to_string(file).ok()?;
+    let l = text.lines().nth(line.checked_sub(1)?)?.trim();
+    Some(format!("{}: {}", &file[pos + "/repo/".len()..], l))
+}
+
+#[derive(Debug, Clone)]
+pub struct PanicSig {
+    /// message with every run of digits replaced by N
+    pub class: String,
+    pub message: String,
+    /// innermost calamine function, or the panic location when no calamine frame is on the stack
+    pub func: String,
+}
+
+/// like `guard`, but a panic is returned with its signature (message class + innermost calamine function)
+pub fn guard_sig<T>(f: impl FnOnce() -> T) -> Result<T, PanicSig> {
+    WANT_BACKTRACE.with(|w| w.set(true));
+    let r = catch_unwind(AssertUnwindSafe(f));
+    WANT_BACKTRACE.with(|w| w.set(false));
+    match r {
+        Ok(v) => Ok(v),
+        Err(_) => {
+            let message = LAST_PANIC.with(|p| p.borrow_mut().take()).unwrap_or_else(|| "<unknown panic>".into());
+            let frame = LAST_FUNC.with(|p| p.borrow_mut().take()).unwrap_or_else(|| "<no calamine frame>".into());
+            let (msg_only, loc) = message.rsplit_once(" @ ").unwrap_or((&message, ""));
+            // signature: the text of the source line that panics (stable under line shifts, and a
+            // removed check makes another line panic); panics raised inside a dependency fall back
+            // to the innermost calamine frame
+            let func = match source_line(loc) {
+                Some(text) => text,
+                None => frame,
+            };
+            let mut class = String::new();
+            let mut in_digits = false;
+            for c in msg_only.chars() {
+                if c.is_ascii_digit() {
+                    if !in_digits {
+                        class.push('N');
+                    }
+                    in_digits = true;
+                } else {
+                    in_digits = false;
+                    class.push(c);
+                }
+            }
+            Err(PanicSig { class, message, func })
+        }
+    }
 }
 
 /// Install a panic hook that stays quiet and remembers message + location for `guard`.
@@ -43,6 +140,10 @@ pub fn install_panic_hook() {
             .map(|l| format!("{}:{}", l.file(), l.line()))
             .unwrap_or_default();
         LAST_PANIC.with(|p| *p.borrow_mut() = Some(format!("{msg} @ {loc}")));
+        if WANT_BACKTRACE.with(|w| w.get()) {
+            let bt = std::backtrace::Backtrace::force_capture().to_string();
+            LAST_FUNC.with(|p| *p.borrow_mut() = innermost_calamine_frame(&bt));
+        }
     }));
 }
 
@@ -184,6 +285,12 @@ pub struct Finding {
     pub expect: Option<String>,
     #[serde(default)]
     pub commit: Option<String>,
+    /// C06 allow-list: innermost calamine function of the tolerated panic ("memory" for a memory finding)
+    #[serde(default)]
+    pub sig_func: Option<String>,
+    /// C06 allow-list: substring of the normalised panic message
+    #[serde(default)]
+    pub sig_class: Option<String>,
 }
 
 #[derive(Debug, Clone, serde::Deserialize, Default)]
@@ -258,6 +365,7 @@ pub struct Ctx {
     pub scale: f64,
     /// write every case to a slot file before running it (crash isolation)
     pub isolate: bool,
+    pub max_shrink_iters: u32,
 }
 
 fn mix(a: u64, b: u64) -> u64 {
@@ -330,6 +438,7 @@ impl Ctx {
             assumptions: Vec::new(),
             scale,
             isolate: true,
+            max_shrink_iters: 4000,
         }
     }
 
@@ -369,6 +478,7 @@ impl Ctx {
         let extra = cases as usize % threads;
         let outs: Mutex<Vec<(usize, ThreadOut<T>)>> = Mutex::new(Vec::new());
         let isolate = self.isolate;
+        let max_shrink = self.max_shrink_iters;
         let property: &str = &self.property.clone();
         std::thread::scope(|sc| {
             for t in 0..threads {
@@ -380,7 +490,7 @@ impl Ctx {
                 builder
                     .spawn_scoped(sc, move || {
                         let slot = if isolate { Slot::open(property, sub, t) } else { Slot { file: None, buf: Vec::new(), thread: t } };
-                        let out = run_thread(n as u32, mix(base, t as u64), strategy(), oracle, slot, property, sub);
+                        let out = run_thread(n as u32, mix(base, t as u64), strategy(), oracle, slot, property, sub, max_shrink);
                         outs.lock().unwrap().push((t, out));
                     })
                     .expect("spawn");
@@ -628,7 +738,7 @@ pub fn load_replay(path: &str) -> Option<(String, serde_json::Value)> {
     Some((sub, case))
 }
 
-fn run_thread<T, S, F>(cases: u32, seed: u64, strategy: S, oracle: &F, slot: Slot, property: &str, sub: &str) -> ThreadOut<T>
+fn run_thread<T, S, F>(cases: u32, seed: u64, strategy: S, oracle: &F, slot: Slot, property: &str, sub: &str, max_shrink: u32) -> ThreadOut<T>
 where
     T: Debug + Clone + Serialize,
     S: Strategy<Value = T>,
@@ -649,7 +759,7 @@ where
     let config = Config {
         cases,
         failure_persistence: None,
-        max_shrink_iters: 4000,
+        max_shrink_iters: max_shrink,
         max_global_rejects: 1 << 20,
         rng_seed: RngSeed::Fixed(seed),
         ..Config::default()
